@@ -1951,7 +1951,7 @@ def run(ctx):
             c = json.load(open(os.path.join(cdir, fn)))
             do(c['case'], vsched.ReplayThenDefault(c['schedule']))
     # ---------- the catalogue, systematically ----------
-    per_case = ctx.budget(150, 900)
+    per_case = ctx.budget(90, 900)
     for case in catalogue():
         res.count('catalogue-scenarios')
         case = {k: v for k, v in case.items() if k != 'name'}
@@ -1965,13 +1965,13 @@ def run(ctx):
                 do(case, HoldPolicy(name, k))
         if case.get('activate') and case.get('settle'):
             # whole activities ordered one after the other, one thread stopped half way (reconnect threads against a user shutdown)
-            for order, drop in priority_schedules(case, rng, ctx.budget(100, 3000), 16):
+            for order, drop in priority_schedules(case, rng, ctx.budget(60, 3000), 16):
                 res.count('priority-schedules')
                 do(case, PriorityPolicy(order, drop))
                 if len(runs) >= 3000:
                     flush()
     # ---------- generated cases: a few systematic schedules, then random ones ----------
-    for _ in range(ctx.budget(150, 550)):
+    for _ in range(ctx.budget(100, 550)):
         case = gen_case(rng, big)
         for prefix, obs in explore_case(case, 1 if not big else 2, ctx.budget(6, 30), rng):
             runs.append((case, effective_schedule(obs), obs))
